@@ -40,6 +40,7 @@ fn main() {
         params: params.clone(),
     };
     install_panic_hook();
+    CASE_TIMEOUT_S.store(g("case_timeout", 40), std::sync::atomic::Ordering::Relaxed);
     let mut rep = Rep::new();
     let ok = props::dispatch(&args, &mut rep);
     if !ok {
@@ -47,4 +48,17 @@ fn main() {
         std::process::exit(2);
     }
     rep.emit(&args);
+    let resume = RESUME_AT.load(std::sync::atomic::Ordering::Relaxed);
+    if resume != u64::MAX {
+        // replace this process (and its runaway case thread) by a fresh worker for the rest of the shard
+        use std::io::Write;
+        use std::os::unix::process::CommandExt;
+        let _ = std::io::stdout().flush();
+        let mut a: Vec<String> = argv[1..].iter().filter(|x| !x.starts_with("start=")).cloned().collect();
+        a.push(format!("start={resume}"));
+        let e = std::process::Command::new(std::env::current_exe().unwrap()).args(a).exec();
+        eprintln!("exec failed: {e}");
+    }
+    // runaway case threads (after a watchdog timeout) must not keep the process alive
+    std::process::exit(0);
 }
